@@ -281,6 +281,6 @@ def run(ctx):
             run_hypothesis(ctx, 'inproc', simrun.sim_case(sims=[sim], nmax=20), prop_case, 60 if quick else 2500)
     if not only or 'large' in only:
         for sim in simrun.SIMS:
-            run_hypothesis(ctx, 'large', large_case(sim), prop_large, 25 if quick else 400, rounds=2, case_timeout=300)
+            run_hypothesis(ctx, 'large', large_case(sim), prop_large, 12 if quick else 400, rounds=2, case_timeout=300)
     if not only or 'xproc' in only:
         run_xproc(ctx, 'xproc', 240 if quick else 3000)
